@@ -1938,24 +1938,28 @@ def _boundary_cases(ctx, maxf):
     # sizes at which an implementation could switch strategy: > 16, > 256, >= 1024 members
     sizes = [16, 17, 256, 257, 1023, 1024, 1025] if ctx.thorough() else [17, 257, 1024, 1025]
     q = 0
+    bads = ([F(-1, 1024), F(0)], [F(0), maxf + F(1, 1024)], [F(1), F(1), F(1)])
     for sz in sizes:
         # times are not monotone (odd points run three steps ahead): reversing is not sorting
         pts = [[F(i + (3 if i % 2 else 0), 8), F((i * 37) % 4096)] for i in range(sz)]
         bad_at = sorted({0, 16, sz // 2, sz - 1} & set(range(sz)))
         variants = [("valid", pts), ("reversed", list(reversed(pts)))]
-        for i in bad_at:
-            for bad in ([F(-1, 1024), F(0)], [F(0), maxf + F(1, 1024)], [F(1), F(1), F(1)]):
-                y = list(pts)
-                y[i] = bad
-                variants.append((f"bad@{i}", y))
+        for n_i, i in enumerate(bad_at):
+            for n_b, bad in enumerate(bads):
+                if ctx.thorough() or (n_i + n_b) % 3 == 0:
+                    y = list(pts)
+                    y[i] = bad
+                    variants.append((f"bad@{i}", y))
         variants.append(("tie", pts[:-1] + [[pts[0][0], F(1)]]))
         for j, (label, y) in enumerate(variants):
-            which = ("construct", MODES[j % 3], "union") if label.startswith("bad") else ALL_ENTRIES
+            one = ("construct", MODES[j % 3], "union", "dict", "attributes")[j % 5]
+            which = ("construct", one) if label.startswith("bad") else ("construct", MODES[j % 3], "union")
             batch += entries("LineString", enc(y), which=which)
-            batch += entries("MultiPoint", enc(y), which=which[:2])
-            batch += entries("Polygon", enc([y]), which=which[:2])
-            batch += entries("MultiLineString", enc([y]), which=which[:2])
-            batch += entries("MultiPolygon", enc([[pts[:3], y]]), which=which[:1])
+            batch += entries("MultiPoint", enc(y), which=(one,))
+            batch += entries("Polygon", enc([y]), which=(MODES[(j + 1) % 3],))
+            batch += entries("MultiLineString", enc([y]), which=(one,))
+            if ctx.thorough() or j % 2 == 0:
+                batch += entries("MultiPolygon", enc([[pts[:3], y]]), which=("construct",))
             q += 5
         # many members rather than many points
         tri = [[F(0), F(0)], [F(1), F(0)], [F(1), F(1)]]
